@@ -1,6 +1,6 @@
 import TakVerif.Impl.PN
 import TakVerif.Impl.Evaluate
-import Std.Data.HashMap
+import Std.Data.TreeMap
 
 /-! Mirror of `prove/dfpn.go` (depth-first proof-number search with a hash table).  `DFPNSolver.solve`
 trusts `ai.CountThreats` (model: `Tak.countThreats`, `Impl/Evaluate.lean`; its soundness is C19) as a
@@ -11,8 +11,12 @@ immediate-win oracle `threats : S → Bool × Bool` (white, black have a winning
 `CountThreats`) and `scale : UInt32 → UInt32` (`uint32(float64(δ₂)·(1+ε))`, a `Float` computation in
 the driver, arbitrary in the proofs).
 
-The table `[]entry` is a map from slot index to entry (absent = the zero entry).  The position pool
+The table `[]entry` is a map from slot index to entry (absent = the zero entry; a `Std.TreeMap`, which
+the kernel can evaluate, so that whole runs on toy games can be `decide`d in `Props/C06_dfpn.lean`).  The position pool
 (`alloc`/`release`) only recycles storage and is not modelled.  The recursion of `mid` carries fuel.
+
+`St.ghostRep` is a ghost flag (no branch reads it): `checkRepetition` has fired at some time in the life
+of the solver.  `Props/C06_dfpn.lean`: `disproven` is proved sound only while it is down.
 
 The model is of the tree *with* `fixes/C06-dfpn-attacker.diff` (`Prove` reports from the attacker's
 point of view when the attacker is not the side to move) and `fixes/C06-dfpn-finished-root.diff`
@@ -57,10 +61,13 @@ deriving Repr, Inhabited, DecidableEq
 
 /-- the mutable part of `DFPNSolver` -/
 structure St (M : Type) where
-  table : Std.HashMap Nat (Entry M)
+  table : Std.TreeMap Nat (Entry M)
   tableLen : Nat
   stats : Stats
   killers : Array (Option M)
+  /-- ghost (not in the Go code, read by no branch): `checkRepetition` has fired at some time in the life
+  of this solver, so the table may hold a bound that rests on a repetition on some earlier path -/
+  ghostRep : Bool := false
 
 def zeroEntry {M : Type} : Entry M := { bounds := ⟨0, 0⟩, hash := 0, work := 0, pv := none }
 
@@ -179,7 +186,7 @@ def mid : Nat → St M → List (Frame S M) → S → PNs → Entry M → Except
   | fuel+1, st, stack, g, bounds, current =>
     if current.bounds.exceeded bounds then .ok (st, current, 0) else
     if checkRepetition stack then
-      .ok ({ st with stats := { st.stats with repetition := st.stats.repetition + 1 } },
+      .ok ({ st with stats := { st.stats with repetition := st.stats.repetition + 1 }, ghostRep := true },
            { current with bounds := terminalBounds G attacker g .none }, 0)
     else
       let depth := stack.length
